@@ -188,18 +188,16 @@ func (wb *memWriteBatch) DeleteRange(start, end []byte) {
 		if wb.writer == nil {
 			wb.writer = wb.db.radixMemI.memkv.Txn(true)
 		}
-		it, err := wb.db.radixMemI.NewIterator()
-		if err != nil {
-			wb.hasErr = err
-			return
-		}
+		// iterate on the state of this batch (committed data plus the writes already
+		// in the batch), the range delete must also remove keys written earlier in the same batch
+		it := &radixIterator{miTxn: wb.writer.Snapshot()}
 		it.Seek(start)
 		for ; it.Valid(); it.Next() {
 			k := it.Key()
 			if end != nil && bytes.Compare(k, end) >= 0 {
 				break
 			}
-			err = wb.db.radixMemI.Delete(wb.writer, k)
+			err := wb.db.radixMemI.Delete(wb.writer, k)
 			if err != nil {
 				wb.hasErr = err
 				break
